@@ -36,6 +36,8 @@ CONSTANTS Ver,          \* 12 | 13
           ClientAuth,   \* 1.2 full with certificate request: client Certificate + CertificateVerify
           EMS,          \* extended master secret negotiated
           ServerChecksClientFinished,
+          NegotiateFrom, \* "CH2" | "CH1": the ClientHello whose extensions the DTLS 1.2 server negotiates from when there is a
+                         \* cookie exchange ("CH1" = the pinned tree: flight0Parse; "CH2" = the "fix:" commit, flight2Parse)
           MaxTamper,
           Gen
 
@@ -208,6 +210,13 @@ HvrCoveredToo == tampered # {} => (~est["c"] /\ ~est["s"])
 HonestCompletes == (phase = "done" /\ tampered = {} ) => (est["c"] /\ est["s"])
 \* agreement of transcript views whenever both complete
 ViewsAgreeWhenBothComplete == (est["c"] /\ est["s"]) => Tr("c") = Tr("s")
+
+(* the second half of C04: no negotiated parameter is steered.  Whatever the server negotiates from must be what the
+   client sent whenever both complete.  With a cookie exchange the first ClientHello is outside the Finished hash, so a
+   server that negotiates from it (the pinned tree did, for every extension-borne parameter: extended master secret,
+   ALPN, groups, signature schemes, server name) lets an attacker steer the outcome. *)
+NegSource == IF Ver = 12 /\ HelloVerify /\ "CH1" \in MsgSet THEN NegotiateFrom ELSE "CH2"
+NoSteering == (est["c"] /\ est["s"]) => (view["s"][NegSource] = Orig /\ view["c"]["SH"] = Orig)
 
 EmitEdge == (Gen /\ phase' = "done") =>
   PrintT(ToJson([ver |-> Ver, mode |-> Mode, hv |-> HelloVerify, kx |-> Kx, clientAuth |-> ClientAuth, ems |-> EMS,
